@@ -30,6 +30,7 @@ def run(pid, argv, want=None):
     cases += SR.shadowed_extern_cases()[:3] if tier == 'quick' else SR.shadowed_extern_cases()
     cases += SR.mc_name_containment_cases()[2:3] if tier == 'quick' else SR.mc_name_containment_cases()
     cases += SR.many_cases()[:1] + SR.many_cases()[2:] if tier == 'quick' else SR.many_cases()
+    cases += SR.pointer_extern_cases()[:1] if tier == 'quick' else SR.pointer_extern_cases()
     suspects, breadth = SR.leg_a_suspects(rng, 100 if tier == 'quick' else 1500, want=want)
     rep.extra['cases_compared_with_the_model_only'] = breadth
     cases += suspects
